@@ -475,12 +475,26 @@ inline void doChange(TC& c, Inst& in, uint8_t sid, uint8_t dest, bool withPayloa
 	World& w = *W;
 	const StateID before = in.obj->activeStateId();
 	const uint64_t subsBefore = w.nEvents;
-	const uint64_t tag = withPayload ? ++w.tagCounter : 0;
+#if HAS_PAYLOAD
+	// now and then the payload handed over is a reference into the machine itself: the payload of the request that is
+	// waiting (the very storage changeWith() overwrites) or of the previous transition is forwarded
+	const cfg::Payload* alias = nullptr;
+	if (withPayload && w.ch.mode != Chooser::ENUM && w.ch.chance(1, 5)) {
+		if (c.request().payload()) alias = c.request().payload();
+#if HAS_HISTORY
+		else if (c.previousTransitions().payload()) alias = c.previousTransitions().payload();
+#endif
+		if (alias) w.stats.add("payload_arguments_aliasing_machine_storage");
+	}
+	const uint64_t tag = withPayload ? (alias ? cfg::tagOf(*alias) : ++w.tagCounter) : 0;
+#else
+	const uint64_t tag = 0;
+#endif
 	const bool byType = typeForm();
 	w.act(in, withPayload ? ACT_CHANGE_WITH : ACT_CHANGE, dest, sid, tag);
 	w.ownRequest = true; w.ownLogCount = 0;
 #if HAS_PAYLOAD
-	if (withPayload) { const cfg::Payload pl = cfg::makePayload(tag); if (byType) FOR_STATE(dest, T, LIB(c.template changeWith<T>(pl))); else LIB(c.changeWith(static_cast<StateID>(dest), pl)); }
+	if (withPayload) { const cfg::Payload plOwn = cfg::makePayload(tag); const cfg::Payload& pl = alias ? *alias : plOwn; if (byType) FOR_STATE(dest, T, LIB(c.template changeWith<T>(pl))); else LIB(c.changeWith(static_cast<StateID>(dest), pl)); }
 	else
 #endif
 	{ if (byType) FOR_STATE(dest, T, LIB(c.template changeTo<T>())); else LIB(c.changeTo(static_cast<StateID>(dest))); }
@@ -531,7 +545,13 @@ inline void planAppend(TPlan plan, Inst& in, uint8_t origin, uint8_t dest, bool 
 	const unsigned form = w.ch.mode != Chooser::ENUM ? w.ch.draw(3) : 0;   // 0: (origin, destination)  1: <Origin>(destination)  2: <Origin, Destination>()
 #if HAS_PAYLOAD
 	if (withPayload) {
-		const cfg::Payload pl = cfg::makePayload(t.tag);
+		// (now and then the payload is a reference to the payload of a task already in this plan)
+		const cfg::Payload* alias = nullptr;
+		if (w.ch.mode != Chooser::ENUM && w.ch.chance(1, 5))
+			for (auto it = plan.begin(); it; ++it) if (it->payload()) { alias = it->payload(); break; }
+		if (alias) { t.tag = cfg::tagOf(*alias); w.stats.add("payload_arguments_aliasing_machine_storage"); }
+		const cfg::Payload plOwn = cfg::makePayload(t.tag);
+		const cfg::Payload& pl = alias ? *alias : plOwn;
 		if (form == 0) LIB(ok = plan.changeWith(static_cast<StateID>(origin), static_cast<StateID>(dest), pl));
 		else if (form == 1) FOR_STATE(origin, TO, LIB(ok = plan.template changeWith<TO>(static_cast<StateID>(dest), pl)));
 		else FOR_STATE(origin, TO, FOR_STATE(dest, TD, LIB(ok = (plan.template changeWith<TO, TD>(pl)))));
